@@ -1073,6 +1073,26 @@ func (e *TermEval) call(x *ssa.Call, vals map[ssa.Value]tval, cur tstore) tval {
 		return tval{t: simplify(&T{Op: "len", Args: []*T{rd(0)}})}
 	case "builtin:cap":
 		return tval{t: Fn("cap", rd(0))}
+	case "(encoding/binary.littleEndian).PutUint16", "(encoding/binary.littleEndian).PutUint32", "(encoding/binary.littleEndian).PutUint64",
+		"(encoding/binary.bigEndian).PutUint16", "(encoding/binary.bigEndian).PutUint32", "(encoding/binary.bigEndian).PutUint64":
+		// args: byte order value, buffer, number
+		if len(args) == 3 && args[1].obj != nil {
+			w := map[string]int64{"16": 2, "32": 4, "64": 8}[name[len(name)-2:]]
+			op := "le" + name[len(name)-2:]
+			if strings.Contains(name, "bigEndian") {
+				op = "be" + name[len(name)-2:]
+			}
+			c, ok := cur[args[1].obj]
+			if !ok {
+				c = Sym(args[1].obj.name)
+			}
+			lo := args[1].lo
+			if lo == nil {
+				lo = Num(0)
+			}
+			cur[args[1].obj] = simplify(&T{Op: "put", Args: []*T{c, lo, {Op: "fixed", Args: []*T{{Op: op, Args: []*T{rd(2)}}, Num(w)}}}})
+		}
+		return tval{t: Sym("void")}
 	case "math/big.NewInt":
 		o := &tobj{name: "bigint:" + x.Name()}
 		cur[o] = rd(0)
